@@ -78,7 +78,7 @@ def _to_int(ctx):
     rep, world = ctx.report, ctx.world
     f = world.func(MOD, 'convert_version_to_int')
     rep.analysed('versionutils.convert_version_to_int')
-    for n in (1, 2, 3, 4):
+    for n in ((1, 2, 3, 4, 5) if ctx.thorough else (1, 2, 3, 4)):
         comps = [T('sym', 'c%d' % i) for i in range(n)]
 
         def thunk(interp):
@@ -96,7 +96,8 @@ def _to_int(ctx):
             return ('return', val)
         grid_compare(rep, 'R17.1', 'convert_version_to_int/tuple%d' % n,
                      '%d-component tuple' % n, outcomes,
-                     {c: (0, 1, 999) for c in comps}, oracle)
+                     {c: ((0, 1, 9, 10, 99, 100, 999) if ctx.thorough
+                          else (0, 1, 999)) for c in comps}, oracle)
     # string input goes through convert_version_to_tuple; its failures (and
     # any other) surface as ValueError
     FAIL = T('sym', 'tuple_fails')
@@ -154,7 +155,7 @@ def _to_str(ctx):
     def setup(interp):
         interp.types[v] = 'int'
     old = world.loop_bound
-    world.loop_bound = 5
+    world.loop_bound = 7 if ctx.thorough else 5
     try:
         outcomes, _i = extract(world, thunk, setup=setup)
     finally:
@@ -162,6 +163,11 @@ def _to_str(ctx):
     grid = (1, 9, 999, 1000, 1001, 1999, 2000, 999999, 1000000, 1000001,
             1000999, 1001000, 999999999, 1000000000, 6007000, 1000000001,
             123045067, 999000999)
+    if ctx.thorough:
+        grid += tuple(a * 1000 ** k + b for k in (1, 2, 3, 4, 5)
+                      for a in (1, 9, 10, 99, 100, 999)
+                      for b in (0, 1, 999, 1000 ** k - 1)) + (
+            10 ** 15, 10 ** 15 - 1, 999999999999999, 1000000000000)
 
     def oracle(val):
         return ('return', _ref_to_str(val['version_int']))
